@@ -106,6 +106,9 @@ TEMPLATES = [
     ("f(n)", lambda f, e: f(5, chunks=2, spec=e.spec)),
     ("f(0,1,5)", lambda f, e: f(0.0, 1.0, 5, chunks=2, spec=e.spec)),
     ("f(a,dtype)", lambda f, e: f(arr(e, "2d"), np.float32)),
+    ("f(a,dtype=float32)", lambda f, e: f(arr(e, "lazy2d"), dtype=np.float32)),
+    ("f(a,dtype=int64,copy)", lambda f, e: f(arr(e, "lazy2d"), dtype=np.int64, copy=True)),
+    ("f(int,dtype=float64)", lambda f, e: f(arr(e, "int2d"), dtype=np.float64)),
     ("f(a,pad)", lambda f, e: f(arr(e, "2d"), ((1, 0), (0, 0)), mode="constant")),
     ("f(fn,a)", lambda f, e: f(lambda b: b * 2, arr(e, "2d"), dtype=np.float64)),
     ("f(a,a,axes=1)", lambda f, e: f(arr(e, "2d"), arr(e, "2d"), axes=1)),
@@ -155,8 +158,13 @@ def probe(ctx, label, call, nt=True):
 
                 frames = [fr.name for fr in _tb.extract_tb(e.__traceback__)]
                 allowed = {"__int__", "__index__", "__float__", "__bool__", "__array__", "__complex__"}
-                if allowed & set(frames) or ("take" in frames) or ("__getitem__" in frames and "index" in frames):
+                # conversion of an ARRAY ARGUMENT to an in-memory array inside a library function is not one of the listed entry
+                # points (the caller asked for a lazy result); a list of arrays handed to asarray is the caller's own conversion
+                if "__array__" in frames and not (allowed - {"__array__"}) & set(frames) and "f([a,b])" not in label:
+                    ctx.fail(f"lazy-call-computes:{label}", f"{label} converted an array argument to memory while building (frames: {frames[-6:]})", {"call": label})
+                elif allowed & set(frames) or ("take" in frames) or ("__getitem__" in frames and "index" in frames):
                     ctx.count("allowed-conversion-or-array-index")      # an entry point the property lists
+                    ctx.count("allowed:" + label.split(" ")[0] + ":" + ",".join(sorted(allowed & set(frames))))
                 else:
                     ctx.fail(f"lazy-call-computes:{label}", f"{label} triggered a computation (frames: {frames[-6:]})", {"call": label})
             return None, "error"
@@ -192,12 +200,15 @@ def run(ctx):
                 continue
             found = None
             for tname, call in TEMPLATES:
+                # every argument pattern the function accepts is probed (a function may be lazy for one pattern and
+                # execute for another: asarray(x) vs asarray(x, dtype=...))
                 out, st = probe(ctx, f"{ns}.{name} {tname}", lambda e, f=f, call=call: call(f, e))
                 if st == "ok":
-                    found = tname
-                    for _ in range(draws - 1):
-                        probe(ctx, f"{ns}.{name} {tname}", lambda e, f=f, call=call: call(f, e))
-                    break
+                    if found is None:
+                        found = tname
+                        for _ in range(draws - 1):
+                            probe(ctx, f"{ns}.{name} {tname}", lambda e, f=f, call=call: call(f, e))
+                    ctx.count("accepted-patterns")
             table[f"{ns}.{name}"] = found
             ctx.count("lazy-function-probed" if found else "no-template-accepted")
     # Array methods, operators, properties
@@ -238,6 +249,20 @@ def run(ctx):
         r = cubed.store(a, t, compute=False)
         r2 = cubed.to_zarr(arr(e, "lazy2d"), os.path.join(e.tmp, "t2.zarr"), compute=False)
         assert not os.path.exists(t) and not os.path.exists(os.path.join(e.tmp, "t2.zarr")), "lazy store created the target"
+        # targets given as open Store objects (with and without a path inside the store)
+        sd = os.path.join(e.tmp, "storedir")
+        ls = zarr.storage.LocalStore(sd)
+        ms, ms2 = zarr.storage.MemoryStore(), zarr.storage.MemoryStore()
+        r3 = cubed.to_zarr(arr(e, "lazy2d"), ls, path="grp/x", compute=False)
+        r4 = cubed.store([arr(e, "lazy2d")], [ms], compute=False)
+        r5 = cubed.to_zarr(arr(e, "2d"), ms2, compute=False)
+        for rr in (r3, r4, r5):
+            for y in (rr if isinstance(rr, (list, tuple)) else [rr]):
+                if hasattr(y, "plan"):
+                    y.plan()
+        files = [os.path.join(d_, f_) for d_, _, fs in os.walk(sd) for f_ in fs] if os.path.isdir(sd) else []
+        assert not files, f"lazy to_zarr into a LocalStore wrote {files[:3]} while building"
+        assert not ms._store_dict and not ms2._store_dict, f"lazy store into a MemoryStore wrote {list(ms._store_dict)[:3] + list(ms2._store_dict)[:3]} while building"
         return r
     out, st = probe(ctx, "store(compute=False)", lazy_store)
     if st == "error":
